@@ -305,3 +305,35 @@ Proof.
     split; [apply rank_refl, inW_inU|apply compare_refl]; auto.
   - split; [apply rank0_self_panics|apply compare0_self_panics]; auto.
 Qed.
+
+(* ---------- C08: Go maps / Maps built in different insertion orders compare equal ---------- *)
+Theorem compare_map_order_free : forall M m ks vs ks' vs', is_map_kind m = true ->
+  Permutation (zipkv ks vs) (zipkv ks' vs') ->
+  inW M (VMapping m ks vs) = true -> inW M (VMapping m ks' vs') = true ->
+  compare0 M (VMapping m ks vs) (VMapping m ks' vs') = R true /\
+  rank0 M (VMapping m ks vs) (VMapping m ks' vs') = R Eq.
+Proof.
+  intros M m ks vs ks' vs' Hm HP Ha Hb.
+  pose proof (inW_spec _ _ Ha) as [Wa _]. pose proof (inW_spec _ _ Hb) as [Wb _].
+  assert (V : forall k v, view_of (VMapping m k v) = WMap (zipkv k v))
+    by (intros; destruct m; try discriminate; reflexivity).
+  destruct (wf_map _ _ Wa (V ks vs)) as [K D].
+  assert (KD : kdistinctb ks = true).
+  { apply wf_spec in Wa. destruct Wa as [_ X]. destruct m; try discriminate; simpl in X;
+    apply andb_prop in X; destruct X as [X _]; apply andb_prop in X; tauto. }
+  assert (RE : rank0 M (VMapping m ks vs) (VMapping m ks' vs') = R Eq).
+  { destruct (rank_map_order_free M m ks vs ks' vs' (VMapping m ks vs) Hm KD HP) as [_ E];
+    auto using inW_inU. rewrite <- E. apply rank_refl. apply inW_inU; auto. }
+  split; auto.
+  apply (compare_iff_rank M _ _ Ha Hb); auto.
+  constructor.
+  - intros L. destruct m; discriminate.
+  - intros k1 v1 k2 v2 V1. rewrite V in V1. discriminate.
+  - intros xs ys V1. rewrite V in V1. discriminate.
+  - intros m1 m2 V1 V2 p q Hp Hq E. rewrite V in V1, V2. inversion V1; inversion V2; subst.
+    apply (Permutation_in _ (Permutation_sym HP)) in Hq.
+    destruct D as [_ D]. assert (p = q) as -> by (apply D; auto).
+    split; [apply wcompat_refl|]. apply same_type_refl.
+    apply (elems_wf (VMapping m ks vs)); auto.
+    apply (pair_in_elems _ _ q (V ks vs)); auto.
+Qed.
